@@ -54,6 +54,8 @@ pub struct Scenario {
 
 fn clock_of(v: &str) -> f64 {
     match v {
+        "neg" => -1.0,
+        "zero" => 0.0,
         "below" => 0.001,
         "min" => 0.01,
         "one" => 1.0,
